@@ -222,6 +222,13 @@ func (e *cellExec) term(v ssa.Value, depth int) string {
 		if x.Op == token.MUL {
 			switch a := x.X.(type) {
 			case *ssa.IndexAddr:
+				// an element of a re-sliced value: xs[lo:][i] = xs[lo+i]
+				if sl, isS := a.X.(*ssa.Slice); isS && sl.Low != nil && sl.Max == nil {
+					if k, isK := constInt(a.Index); isK && k == 0 {
+						return e.term(sl.X, depth+1) + "[" + e.term(sl.Low, depth+1) + "]"
+					}
+					return e.term(sl.X, depth+1) + "[(" + e.term(sl.Low, depth+1) + "+" + e.term(a.Index, depth+1) + ")]"
+				}
 				return e.term(a.X, depth+1) + "[" + e.term(a.Index, depth+1) + "]"
 			case *ssa.FieldAddr:
 				return "." + fieldAddrName(a)
